@@ -177,7 +177,7 @@ func (c *Ctx) ruleR06d(rule string) {
 			if !isB || bi.Name() != "append" || len(cl.Call.Args) != 2 {
 				continue
 			}
-			if _, f, isLoad := fieldLoad(cl.Call.Args[0]); !isLoad || f != m.Lines {
+			if !c.isLineTableAppend(cl) {
 				continue
 			}
 			head := innermostLoopHeader(b)
@@ -336,10 +336,8 @@ func (c *Ctx) lineTableIndexByte(rule string, fn *ssa.Function, lf *lin.Fn) bool
 					if !ok {
 						continue
 					}
-					if bi, isB := cl.Call.Value.(*ssa.Builtin); isB && bi.Name() == "append" && len(cl.Call.Args) == 2 {
-						if _, f, isLoad := fieldLoad(cl.Call.Args[0]); isLoad && f == m.Lines {
-							app, appBlock = cl, hb
-						}
+					if bi, isB := cl.Call.Value.(*ssa.Builtin); isB && bi.Name() == "append" && len(cl.Call.Args) == 2 && c.isLineTableAppend(cl) {
+						app, appBlock = cl, hb
 					}
 				}
 			}
@@ -407,4 +405,38 @@ func (c *Ctx) lineTableIndexByte(rule string, fn *ssa.Function, lf *lin.Fn) bool
 		}
 	}
 	return false
+}
+
+// isLineTableAppend: the append grows the line table: its first argument is the table's field, or its result ends up
+// (through the loop's phis) in a store to that field.
+func (c *Ctx) isLineTableAppend(cl *ssa.Call) bool {
+	m := c.model()
+	if _, f, isLoad := fieldLoad(cl.Call.Args[0]); isLoad && f == m.Lines {
+		return true
+	}
+	if sl, ok := cl.Type().Underlying().(*types.Slice); !ok || !types.Identical(sl.Elem(), types.Typ[types.Int]) {
+		return false
+	}
+	seen := map[ssa.Value]bool{}
+	var walk func(v ssa.Value) bool
+	walk = func(v ssa.Value) bool {
+		if seen[v] || v.Referrers() == nil {
+			return false
+		}
+		seen[v] = true
+		for _, r := range *v.Referrers() {
+			switch x := r.(type) {
+			case *ssa.Phi:
+				if walk(x) {
+					return true
+				}
+			case *ssa.Store:
+				if fa, ok := x.Addr.(*ssa.FieldAddr); ok && x.Val == v && fieldVar(fa) != nil && fieldVar(fa).Name() == m.Lines && namedOfType(fa.X.Type()) == m.FileT {
+					return true
+				}
+			}
+		}
+		return false
+	}
+	return walk(cl)
 }
